@@ -33,9 +33,11 @@ pub assume_specification [char::is_ascii_alphanumeric] (c: &char) -> (r: bool)
 pub assume_specification [char::is_ascii_digit] (c: &char) -> (r: bool)
     ensures r == is_digit(*c);
 
+pub assume_specification [u8::is_ascii] (c: &u8) -> (r: bool)
+    ensures r == (*c < 128u8);
 pub assume_specification [String::len] (s: &String) -> (r: usize)
     ensures r == encode_utf8(s@).len();
-pub assume_specification<T, E>[Result::<T,E>::unwrap_or](r: Result<T,E>, default: T) -> (t: T)
+pub assume_specification<T, E>[core::result::Result::<T,E>::unwrap_or](r: core::result::Result<T,E>, default: T) -> (t: T)
     ensures t == (match r { Ok(v) => v, Err(_) => default });
 pub assume_specification [str::to_ascii_lowercase] (s: &str) -> (r: String)
     ensures r@ == lower_seq(s@);
@@ -67,7 +69,7 @@ pub open spec fn nb_value(ds: Seq<char>) -> int { if ds.len() >= 1 && dec_value(
 // shim D6.parse_i64: X.parse::<i64>() -- specified for unsigned ASCII digit strings (Ok(value) iff the
 // value fits an i64, Err on overflow) and for the empty string (Err); signs and junk are left unspecified.
 #[verifier::external_body]
-fn shim_parse_i64(numstr: &str) -> (r: Result<i64, std::num::ParseIntError>)
+fn shim_parse_i64(numstr: &str) -> (r: core::result::Result<i64, std::num::ParseIntError>)
     ensures (numstr@.len() >= 1 && all_digits(numstr@)) ==> (match r {
                 Ok(v) => dec_value(numstr@) <= i64::MAX && v == dec_value(numstr@),
                 Err(_) => dec_value(numstr@) > i64::MAX }),
